@@ -173,3 +173,30 @@ def summarize_online_operation(ix, cls):
         got = [want.index(a) for a in args]
         return ('pointwise', reorder(term, got)), None, 'slot:' + fn.name
     return nf, partial, 'unknown'
+
+
+def check_constant_leaf(rep, f, valtext, slot, rule='R-OPSUM'):
+    """dense-time constant: the signal [[0, val], [inf, val]] -- defined from time 0, holding val for ever"""
+    lists = [n for n in ast.walk(f.node) if isinstance(n, ast.List) and n.elts and all(isinstance(e, ast.List) and len(e.elts) == 2 for e in n.elts)]
+    if not lists:
+        rep.fail(rule, f.module.rel, f.qual, slot, 'the constant handler does not build a list of [time, value] samples', f.node.lineno)
+        return
+    for lst in lists:
+        probs = []
+        t0 = lst.elts[0].elts[0]
+        if not (isinstance(t0, ast.Constant) and t0.value == 0):
+            probs.append('the first sample is at %s, not at time 0' % ast.unparse(t0))
+        prev_inf = False
+        for k, e in enumerate(lst.elts):
+            if ast.unparse(e.elts[1]) != valtext:
+                probs.append('sample %d carries %s, not %s' % (k, ast.unparse(e.elts[1]), valtext))
+            if k > 0:
+                t = e.elts[0]
+                pos_inf = isinstance(t, ast.Call) and getattr(t.func, 'id', None) == 'float' and t.args and isinstance(t.args[0], ast.Constant) \
+                    and str(t.args[0].value).lower() in ('inf', '+inf', 'infinity')
+                if not pos_inf:
+                    probs.append('sample %d is at %s: time-stamps must increase (the closing sample is at +inf)' % (k, ast.unparse(t)))
+        if probs:
+            rep.fail(rule, f.module.rel, f.qual, slot, 'constant signal %s: %s' % (ast.unparse(lst), '; '.join(probs)), lst.lineno)
+        else:
+            rep.ok(rule, f.module.rel, f.qual, slot, 'constant signal %s' % ast.unparse(lst), lst.lineno)
